@@ -355,11 +355,8 @@ def optEq (a b : Option (List Nat)) : Bool := a == b
 
 def devStruct (st : GT) (ops : List TOp) : List String :=
   ops.foldl (fun acc op => match op with
-    | .jsRead name =>
-      -- a `json:"-"` field is found by the FieldByName fallback on reads but not by fieldIndexByName on writes
-      if optEq (structGetPath st name) (fieldIndexByName st name) then acc else addDev acc "struct_dash_tag_read_only"
     | .jsWrite name v =>
-      (match fieldIndexByName st name with
+      (match structGetPath st name with
        | some p => addDevs acc (devConv v ((typeAt st.base p).getD .any))
        | none => acc)
     | _ => acc) []
@@ -554,7 +551,7 @@ def handle (ws : List String) : String :=
      | some st =>
        (match allSome ((ops.splitOn ";").map top?) with
         | some ol =>
-          reply (structOut (structRun modelLeaf true st ⟨st.zero, []⟩ ol)) (structOut (structRun Spec.leaf false st ⟨st.zero, []⟩ ol)) (devStruct st ol)
+          reply (structOut (structRun modelLeaf true st ⟨st.zero, []⟩ ol)) (structOut (structRun Spec.leaf true st ⟨st.zero, []⟩ ol)) (devStruct st ol)
         | none => "bad-op")
      | none => "bad-op")
   | ["field", t, name] =>
